@@ -486,3 +486,21 @@ def run_case(ctx, desc):
                 if not _same(oa[k], of[k]):
                     return ctx.violation(f"{kind}.clear.replay_differs_from_fresh", f"replay step {t} after clear at {kpos}: output '{k}' differs from a fresh layer", rdesc)
         ctx.count("replays_checked")
+        if kpos in (0, desc["T"] // 2, desc["T"]) and not desc.get("prefire_neurons"):
+            # a cleared layer is as good as a freshly built one also for what comes next: its components are given another batch
+            # size through their setters and the layer is stepped at that size
+            B2 = desc["B"] + 1
+            try:
+                A.clear()
+                for m in list(pA.conns.values()) + list(pA.neurons.values()):
+                    m.batchsz = B2
+                d2 = {**desc, "B": B2}
+                o2, _ = _step_layer(d2, A, _inputs(d2, pA, torch.Generator().manual_seed(desc["seed"] + 5 + kpos)))
+            except Exception as e:  # noqa: BLE001
+                return ctx.violation(ctx.exc_signature(e, f"resized_after_clear.{kind}"),
+                                     f"cleared at {kpos}, batch size then set to {B2} through the components' setters: "
+                                     f"{type(e).__name__}: {str(e)[:160]}", rdesc)
+            ctx.count("steps_at_a_new_batch_size_after_clear")
+            for k2, o in o2.items():
+                if tuple(o.shape) != (B2,) + tuple(pA.neurons[k2].shape):
+                    return ctx.violation(f"{kind}.clear.output_shape_after_batch_resize", f"output '{k2}' has shape {tuple(o.shape)}", rdesc)
